@@ -67,6 +67,10 @@ CHECKS = {
    technique="runtime monitoring with fault and cancellation injection: goroutine deadlock/leak monitor (quiescence on runtime.Stack states), cancellation oracle, event-triggered cancellation and seeded delays through the verifPoint hooks, Go race detector on a second build of the same workload",
    text="Massive-mode calls of every operation (incl. the four From-Root ones) are run with 0-30 failing blocks at each pipeline stage, failing readers/writers/callbacks, cancellation after every input offset and at every hook event, pre-cancelled and deadline contexts, under seeded GOMAXPROCS and delay profiles (13k executions quick). Each call must return (deadlock monitor), leave no gtree goroutine behind (leak monitor), and under cancellation return nil only with complete output and otherwise the context's error; the same workload on the -race build must produce no DATA RACE report.",
    note="Bounded time = no deadlock and return before a 60 s watchdog (firing = inconclusive). Goroutines are attributed by stack frames, one call at a time. A clean race run covers only executed accesses."),
+ "C16": dict(level="exploration", design="DESIGN.md §4 C16",
+   technique="runtime monitoring of the real CLI process: stdout/stderr/exit-status/jail-snapshot monitor against the library's result for the corresponding options; syscall-level fault injection with strace (ENOSPC on the N-th stdout write, EACCES on the N-th mkdirat / file creation)",
+   text="The binary built from /repo/cmd/gtree is run ~2800 (quick) / ~55000 (thorough) times: seeded documents (well-formed, malformed, hostile names, blank) through output (formats, --massive, stdin/--file), mkdir (dry-run, -e lists, --target-dir, pre-existing root) and verify (--strict, --target-dir, injected differences); stdout on /dev/full and closed; template|output against the README block and the model; 15 usage-error command lines; strace-injected ENOSPC at every stdout write index and EACCES at every mkdirat / file creation. stdout must equal the library's bytes, the filesystem effect must equal the library's, exit status 0 iff the library call succeeds, failures need a diagnostic on stderr, never a crash.",
+   note="--watch and web excluded. Closed stdout is a success state for a Go binary (runtime re-opens it on /dev/null). A strace run is a fault case iff its log contains (INJECTED)."),
 }
 PENDING = {}
 ids = [json.loads(l)["id"] for l in open("/verif/properties.jsonl")]
